@@ -839,4 +839,357 @@ theorem cap2_project_optimal_hollow (hs : LawfulSqrt sq) (s : Capsule2 K) (p y :
 
 example : CapOk2 (⟨⟨0, 0⟩, ⟨1, 0⟩, 1/2⟩ : Capsule2 ℚ) := by simp only [CapOk2]; norm_num
 
+/-! ## Aabb / Cuboid feature ids (`Aabb::project_local_point_and_get_feature`, model = fixed `>=` on the `+` faces)
+
+Feature-id tables of the 3-D box (the ones `Cuboid::feature_normal` decodes): `Face(i)`, `i < 3` is the `+` face of axis `i`,
+`Face(i+3)` the `-` face; `Vertex(id)` has bit `i` of `id` set iff the vertex is on the `-` side of axis `i`;
+`Edge(e)` runs along axis `e % 4` and the bits of `e / 4` give the sides of the two other axes (the bit of the edge's own axis
+is not used by the decoder). -/
+
+/-- the post-processing part of `aabbFeature3`: feature id from the projection `ls` and the shift -/
+def featPost3 {K : Type} [Num K] (mins maxs ls shift : V3 K) : Feat :=
+  let z0 := neq shift.x 0; let z1 := neq shift.y 0; let z2 := neq shift.z 0
+  let nzero := (if z0 then 1 else 0) + (if z1 then 1 else 0) + (if z2 then 1 else 0)
+  let lastZero := if z2 then 2 else if z1 then 1 else 0
+  let lastNotZero := if !z2 then 2 else if !z1 then 1 else 0
+  if nzero = 3 then aabbFeature3.go mins maxs ls 3 0
+  else
+    let c := V3.center mins maxs
+    if nzero = 2 then
+      if ls.get lastNotZero < c.get lastNotZero then Feat.face (lastNotZero + 3) else Feat.face lastNotZero
+    else
+      let id := (if ls.x < c.x then 1 else 0) + (if ls.y < c.y then 2 else 0) + (if ls.z < c.z then 4 else 0)
+      if nzero = 0 then Feat.vertex id else Feat.edge (id * 4 + lastZero)
+
+theorem aabbFeature3_eq_post (mins maxs pt : V3 K) :
+    letI := fieldNum K sq
+    ∀ r, r = aabbDoProject3 mins maxs pt false →
+    aabbFeature3 mins maxs pt = (⟨r.1, r.2.1⟩, featPost3 mins maxs r.2.1 r.2.2) := by
+  letI := fieldNum K sq
+  intro r hr
+  unfold aabbFeature3
+  rw [← hr]
+  unfold featPost3
+  dsimp only
+  generalize (((if neq r.2.2.x 0 = true then 1 else 0) + if neq r.2.2.y 0 = true then 1 else 0) + if neq r.2.2.z 0 = true then 1 else 0 : Nat) = n
+  generalize (if (!neq r.2.2.z 0) = true then 2 else if (!neq r.2.2.y 0) = true then 1 else 0 : Nat) = j
+  generalize (if neq r.2.2.z 0 = true then 2 else if neq r.2.2.y 0 = true then 1 else 0 : Nat) = a
+  generalize (((if r.2.1.x < (mins.center maxs).x then 1 else 0) + if r.2.1.y < (mins.center maxs).y then 2 else 0) + if r.2.1.z < (mins.center maxs).z then 4 else 0 : Nat) = id
+  split_ifs <;> rfl
+
+/-- side of an axis selected by a bit: `-` (`lo`) if set, `+` (`hi`) otherwise -/
+def sideOf (lo hi : K) (b : Prop) [Decidable b] : K := if b then lo else hi
+
+/-- **the feature contains the point** (3-D box `[lo, hi]`), with the code's own `ε = 2⁻⁵²` slack on faces found by the
+`nzero_shifts == DIM` scan. -/
+def FeatContains3 (lo hi : V3 K) (f : Feat) (x : V3 K) : Prop :=
+  match f with
+  | .face 0 => hi.x - ((mkRat 1 4503599627370496 : ℚ) : K) ≤ x.x
+  | .face 1 => hi.y - ((mkRat 1 4503599627370496 : ℚ) : K) ≤ x.y
+  | .face 2 => hi.z - ((mkRat 1 4503599627370496 : ℚ) : K) ≤ x.z
+  | .face 3 => x.x ≤ lo.x + ((mkRat 1 4503599627370496 : ℚ) : K)
+  | .face 4 => x.y ≤ lo.y + ((mkRat 1 4503599627370496 : ℚ) : K)
+  | .face 5 => x.z ≤ lo.z + ((mkRat 1 4503599627370496 : ℚ) : K)
+  | .face _ => False
+  | .vertex id => id < 8 ∧ x.x = sideOf lo.x hi.x (id % 2 = 1) ∧ x.y = sideOf lo.y hi.y ((id / 2) % 2 = 1)
+      ∧ x.z = sideOf lo.z hi.z ((id / 4) % 2 = 1)
+  | .edge e => e / 4 < 8 ∧
+      ((e % 4 = 0 ∧ x.y = sideOf lo.y hi.y ((e / 4 / 2) % 2 = 1) ∧ x.z = sideOf lo.z hi.z ((e / 4 / 4) % 2 = 1)) ∨
+       (e % 4 = 1 ∧ x.x = sideOf lo.x hi.x ((e / 4) % 2 = 1) ∧ x.z = sideOf lo.z hi.z ((e / 4 / 4) % 2 = 1)) ∨
+       (e % 4 = 2 ∧ x.x = sideOf lo.x hi.x ((e / 4) % 2 = 1) ∧ x.y = sideOf lo.y hi.y ((e / 4 / 2) % 2 = 1)))
+  | .unknown => False
+
+/-- a clamped coordinate is on the side told by the comparison with the box centre -/
+private theorem side_of_center (lo hi x : K) (h : lo ≤ hi) (hx : x = lo ∨ x = hi) :
+    x = sideOf lo hi (x < (lo + hi) * ((mkRat 1 2 : ℚ) : K)) := by
+  have hl : ((mkRat 1 2 : ℚ) : K) = 1 / 2 := by norm_num
+  rw [hl]
+  unfold sideOf
+  split_ifs with c
+  · rcases hx with e | e
+    · exact e
+    · rw [e] at c; exfalso; linarith
+  · rcases hx with e | e
+    · rw [e] at c ⊢; push Not at c; linarith
+    · exact e
+
+/-- bit table of the vertex id `b0 + 2 b1 + 4 b2` -/
+private theorem id_bits (b0 b1 b2 : Prop) [Decidable b0] [Decidable b1] [Decidable b2] :
+    ((if b0 then 1 else 0) + (if b1 then 2 else 0) + (if b2 then 4 else 0) : Nat) < 8 ∧
+    ((((if b0 then 1 else 0) + (if b1 then 2 else 0) + (if b2 then 4 else 0) : Nat) % 2 = 1) ↔ b0) ∧
+    (((((if b0 then 1 else 0) + (if b1 then 2 else 0) + (if b2 then 4 else 0) : Nat) / 2) % 2 = 1) ↔ b1) ∧
+    (((((if b0 then 1 else 0) + (if b1 then 2 else 0) + (if b2 then 4 else 0) : Nat) / 4) % 2 = 1) ↔ b2) := by
+  by_cases h0 : b0 <;> by_cases h1 : b1 <;> by_cases h2 : b2 <;> simp [h0, h1, h2]
+
+private theorem sideOf_congr (lo hi : K) (b b' : Prop) [Decidable b] [Decidable b'] (h : b' ↔ b) :
+    sideOf lo hi b = sideOf lo hi b' := by
+  unfold sideOf
+  by_cases hb : b
+  · rw [if_pos hb, if_pos (h.mpr hb)]
+  · rw [if_neg hb, if_neg (fun h' => hb (h.mp h'))]
+
+private theorem neq_false_of_ne (a : K) (h : a ≠ 0) : @neq K (fieldNum K sq) a 0 = false := by
+  rw [← Bool.not_eq_true]; exact fun h' => h ((neq_zero_iff sq a).mp h')
+
+/-- the feature id computed from a point `ls` of the box and a shift whose non-zero coordinates are clamped onto a face
+contains `ls` — and is never `Unknown` -/
+theorem featPost3_contains (lo hi ls sh : V3 K) (hok : BoxOk3 lo hi) (hm : BoxMem3 lo hi ls)
+    (hx : sh.x ≠ 0 → ls.x = lo.x ∨ ls.x = hi.x) (hy : sh.y ≠ 0 → ls.y = lo.y ∨ ls.y = hi.y)
+    (hz : sh.z ≠ 0 → ls.z = lo.z ∨ ls.z = hi.z)
+    (hall : sh.x = 0 → sh.y = 0 → sh.z = 0 →
+      (ls.x = hi.x ∨ ls.x = lo.x ∨ ls.y = hi.y ∨ ls.y = lo.y ∨ ls.z = hi.z ∨ ls.z = lo.z)) :
+    letI := fieldNum K sq
+    FeatContains3 lo hi (featPost3 lo hi ls sh) ls := by
+  letI := fieldNum K sq
+  have he := eps_pos (K := K)
+  obtain ⟨ok1, ok2, ok3⟩ := hok
+  obtain ⟨⟨mx1, mx2⟩, ⟨my1, my2⟩, ⟨mz1, mz2⟩⟩ := hm
+  have hcx : (V3.center lo hi).x = (lo.x + hi.x) * ((mkRat 1 2 : ℚ) : K) := by simp only [V3.center, V3.add, V3.smul, fieldNum_lit]
+  have hcy : (V3.center lo hi).y = (lo.y + hi.y) * ((mkRat 1 2 : ℚ) : K) := by simp only [V3.center, V3.add, V3.smul, fieldNum_lit]
+  have hcz : (V3.center lo hi).z = (lo.z + hi.z) * ((mkRat 1 2 : ℚ) : K) := by simp only [V3.center, V3.add, V3.smul, fieldNum_lit]
+  have sx := fun h => side_of_center lo.x hi.x ls.x ok1 (hx h)
+  have sy := fun h => side_of_center lo.y hi.y ls.y ok2 (hy h)
+  have sz := fun h => side_of_center lo.z hi.z ls.z ok3 (hz h)
+  rw [← hcx] at sx; rw [← hcy] at sy; rw [← hcz] at sz
+  obtain ⟨ib, i0, i1, i2⟩ := id_bits (ls.x < (V3.center lo hi).x) (ls.y < (V3.center lo hi).y) (ls.z < (V3.center lo hi).z)
+  unfold featPost3
+  by_cases z0 : sh.x = 0 <;> by_cases z1 : sh.y = 0 <;> by_cases z2 : sh.z = 0
+  · -- already on the boundary: scan of the faces
+    have n0 := (neq_zero_iff sq _).mpr z0; have n1 := (neq_zero_iff sq _).mpr z1; have n2 := (neq_zero_iff sq _).mpr z2
+    simp only [n0, n1, n2, if_true, Nat.reduceAdd, aabbFeature3.go, V3.get, eps, fieldNum_lit]
+    simp only [Nat.reduceEqDiff, if_true, if_false, Nat.zero_add, Nat.reduceAdd, OfNat.ofNat_ne_zero, OfNat.ofNat_ne_one, one_ne_zero]
+    have := hall z0 z1 z2
+    split_ifs with c1 c2 c3 c4 c5 c6 <;> simp only [FeatContains3] <;> first | assumption | skip
+    exfalso
+    push Not at c1 c2 c3 c4 c5 c6
+    rcases this with e | e | e | e | e | e <;> linarith
+  · -- non-zero shift on: z
+    have n0 := (neq_zero_iff sq _).mpr z0; have n1 := (neq_zero_iff sq _).mpr z1; have n2 := neq_false_of_ne sq _ z2
+    simp only [n0, n1, n2, if_true, if_false, Bool.false_eq_true, Bool.not_true, Bool.not_false, Nat.reduceAdd, Nat.reduceEqDiff, V3.get, Nat.zero_add, Nat.add_zero, OfNat.ofNat_ne_zero, OfNat.ofNat_ne_one, one_ne_zero, zero_ne_one]
+    have hs := sz z2
+    split_ifs with c
+    · have e : ls.z = lo.z := hs.trans (by unfold sideOf; exact if_pos c)
+      simp only [FeatContains3]; linarith
+    · have e : ls.z = hi.z := hs.trans (by unfold sideOf; exact if_neg c)
+      simp only [FeatContains3]; linarith
+  · -- non-zero shift on: y
+    have n0 := (neq_zero_iff sq _).mpr z0; have n1 := neq_false_of_ne sq _ z1; have n2 := (neq_zero_iff sq _).mpr z2
+    simp only [n0, n1, n2, if_true, if_false, Bool.false_eq_true, Bool.not_true, Bool.not_false, Nat.reduceAdd, Nat.reduceEqDiff, V3.get, Nat.zero_add, Nat.add_zero, OfNat.ofNat_ne_zero, OfNat.ofNat_ne_one, one_ne_zero, zero_ne_one]
+    have hs := sy z1
+    split_ifs with c
+    · have e : ls.y = lo.y := hs.trans (by unfold sideOf; exact if_pos c)
+      simp only [FeatContains3]; linarith
+    · have e : ls.y = hi.y := hs.trans (by unfold sideOf; exact if_neg c)
+      simp only [FeatContains3]; linarith
+  · -- non-zero shift on: y,z
+    have n0 := (neq_zero_iff sq _).mpr z0; have n1 := neq_false_of_ne sq _ z1; have n2 := neq_false_of_ne sq _ z2
+    simp only [n0, n1, n2, if_true, if_false, Bool.false_eq_true, Bool.not_true, Bool.not_false, Nat.reduceAdd, Nat.reduceEqDiff, V3.get, Nat.zero_add, Nat.add_zero, OfNat.ofNat_ne_zero, OfNat.ofNat_ne_one, one_ne_zero, zero_ne_one]
+    generalize (((if ls.x < (V3.center lo hi).x then 1 else 0) + if ls.y < (V3.center lo hi).y then 2 else 0) + if ls.z < (V3.center lo hi).z then 4 else 0 : Nat) = id at ib i0 i1 i2 ⊢
+    have e4 : id * 4 / 4 = id := by omega
+    have e4m : id * 4 % 4 = 0 := by omega
+    simp only [FeatContains3, e4, e4m]
+    exact ⟨ib, (Or.inl) ⟨trivial, (sy z1).trans (sideOf_congr _ _ _ _ i1), (sz z2).trans (sideOf_congr _ _ _ _ i2)⟩⟩
+  · -- non-zero shift on: x
+    have n0 := neq_false_of_ne sq _ z0; have n1 := (neq_zero_iff sq _).mpr z1; have n2 := (neq_zero_iff sq _).mpr z2
+    simp only [n0, n1, n2, if_true, if_false, Bool.false_eq_true, Bool.not_true, Bool.not_false, Nat.reduceAdd, Nat.reduceEqDiff, V3.get, Nat.zero_add, Nat.add_zero, OfNat.ofNat_ne_zero, OfNat.ofNat_ne_one, one_ne_zero, zero_ne_one]
+    have hs := sx z0
+    split_ifs with c
+    · have e : ls.x = lo.x := hs.trans (by unfold sideOf; exact if_pos c)
+      simp only [FeatContains3]; linarith
+    · have e : ls.x = hi.x := hs.trans (by unfold sideOf; exact if_neg c)
+      simp only [FeatContains3]; linarith
+  · -- non-zero shift on: x,z
+    have n0 := neq_false_of_ne sq _ z0; have n1 := (neq_zero_iff sq _).mpr z1; have n2 := neq_false_of_ne sq _ z2
+    simp only [n0, n1, n2, if_true, if_false, Bool.false_eq_true, Bool.not_true, Bool.not_false, Nat.reduceAdd, Nat.reduceEqDiff, V3.get, Nat.zero_add, Nat.add_zero, OfNat.ofNat_ne_zero, OfNat.ofNat_ne_one, one_ne_zero, zero_ne_one]
+    generalize (((if ls.x < (V3.center lo hi).x then 1 else 0) + if ls.y < (V3.center lo hi).y then 2 else 0) + if ls.z < (V3.center lo hi).z then 4 else 0 : Nat) = id at ib i0 i1 i2 ⊢
+    have e4 : (id * 4 + 1) / 4 = id := by omega
+    have e4m : (id * 4 + 1) % 4 = 1 := by omega
+    simp only [FeatContains3, e4, e4m]
+    exact ⟨ib, (fun h => Or.inr (Or.inl h)) ⟨trivial, (sx z0).trans (sideOf_congr _ _ _ _ i0), (sz z2).trans (sideOf_congr _ _ _ _ i2)⟩⟩
+  · -- non-zero shift on: x,y
+    have n0 := neq_false_of_ne sq _ z0; have n1 := neq_false_of_ne sq _ z1; have n2 := (neq_zero_iff sq _).mpr z2
+    simp only [n0, n1, n2, if_true, if_false, Bool.false_eq_true, Bool.not_true, Bool.not_false, Nat.reduceAdd, Nat.reduceEqDiff, V3.get, Nat.zero_add, Nat.add_zero, OfNat.ofNat_ne_zero, OfNat.ofNat_ne_one, one_ne_zero, zero_ne_one]
+    generalize (((if ls.x < (V3.center lo hi).x then 1 else 0) + if ls.y < (V3.center lo hi).y then 2 else 0) + if ls.z < (V3.center lo hi).z then 4 else 0 : Nat) = id at ib i0 i1 i2 ⊢
+    have e4 : (id * 4 + 2) / 4 = id := by omega
+    have e4m : (id * 4 + 2) % 4 = 2 := by omega
+    simp only [FeatContains3, e4, e4m]
+    exact ⟨ib, (fun h => Or.inr (Or.inr h)) ⟨trivial, (sx z0).trans (sideOf_congr _ _ _ _ i0), (sy z1).trans (sideOf_congr _ _ _ _ i1)⟩⟩
+  · -- non-zero shift on: x,y,z
+    have n0 := neq_false_of_ne sq _ z0; have n1 := neq_false_of_ne sq _ z1; have n2 := neq_false_of_ne sq _ z2
+    simp only [n0, n1, n2, if_true, if_false, Bool.false_eq_true, Bool.not_true, Bool.not_false, Nat.reduceAdd, Nat.reduceEqDiff, V3.get, Nat.zero_add, Nat.add_zero, OfNat.ofNat_ne_zero, OfNat.ofNat_ne_one, one_ne_zero, zero_ne_one]
+    generalize (((if ls.x < (V3.center lo hi).x then 1 else 0) + if ls.y < (V3.center lo hi).y then 2 else 0) + if ls.z < (V3.center lo hi).z then 4 else 0 : Nat) = id at ib i0 i1 i2 ⊢
+    simp only [FeatContains3]
+    exact ⟨ib, (sx z0).trans (sideOf_congr _ _ _ _ i0), (sy z1).trans (sideOf_congr _ _ _ _ i1), (sz z2).trans (sideOf_congr _ _ _ _ i2)⟩
+
+private theorem aabbStep_eq' (mp pm : K) (i : Nat) (st : BestSt K) :
+    letI := fieldNum K sq
+    aabbStep mp pm i st =
+      (if (match st.1 with | none => true | some b => decide (b < max mp pm)) = true
+        then (some (max mp pm), decide (pm ≤ mp), i) else st) := by
+  letI := fieldNum K sq
+  unfold aabbStep
+  by_cases h : mp < pm
+  · simp only [h, if_true, max_eq_right h.le, not_le.2 h, decide_false]; rfl
+  · simp only [h, if_false, max_eq_left (not_lt.1 h), not_lt.1 h, decide_true]; rfl
+
+private theorem box_shift_zero (lo hi p : V3 K) (hok : BoxOk3 lo hi) :
+    letI := fieldNum K sq
+    (((lo.sub p).sup V3.zero).sub ((p.sub hi).sup V3.zero)).isZero = true ↔ BoxMem3 lo hi p := by
+  letI := fieldNum K sq
+  simp only [V3.isZero, V3.sub, V3.sup, V3.zero, fieldNum_nmax, Bool.and_eq_true, neq_zero_iff, BoxMem3]
+  rw [(clamp_shift lo.x hi.x p.x hok.1).1, (clamp_shift lo.y hi.y p.y hok.2.1).1, (clamp_shift lo.z hi.z p.z hok.2.2).1]
+  tauto
+
+/-- `Aabb::do_project_local_point(pt, solid = false)` for a point of the box: `(true, projection, shift)` moves one coordinate
+onto its nearer face -/
+private theorem aabb3_do_hollow (lo hi p : V3 K) (hok : BoxOk3 lo hi) (hm : BoxMem3 lo hi p) :
+    letI := fieldNum K sq
+    aabbDoProject3 lo hi p false = (true, ⟨lo.x, p.y, p.z⟩, ⟨lo.x - p.x, 0, 0⟩) ∨
+    aabbDoProject3 lo hi p false = (true, ⟨hi.x, p.y, p.z⟩, ⟨hi.x - p.x, 0, 0⟩) ∨
+    aabbDoProject3 lo hi p false = (true, ⟨p.x, lo.y, p.z⟩, ⟨0, lo.y - p.y, 0⟩) ∨
+    aabbDoProject3 lo hi p false = (true, ⟨p.x, hi.y, p.z⟩, ⟨0, hi.y - p.y, 0⟩) ∨
+    aabbDoProject3 lo hi p false = (true, ⟨p.x, p.y, lo.z⟩, ⟨0, 0, lo.z - p.z⟩) ∨
+    aabbDoProject3 lo hi p false = (true, ⟨p.x, p.y, hi.z⟩, ⟨0, 0, hi.z - p.z⟩) := by
+  letI := fieldNum K sq
+  have hZ := (box_shift_zero sq lo hi p hok).mpr hm
+  simp only [aabbDoProject3, hZ, Bool.not_true, Bool.false_eq_true, if_false, aabbStep_eq']
+  simp only [V3.sub, decide_true, if_true]
+  by_cases h1 : max (lo.x - p.x) (p.x - hi.x) < max (lo.y - p.y) (p.y - hi.y)
+  · simp only [h1, decide_true, if_true]
+    by_cases h2 : max (lo.y - p.y) (p.y - hi.y) < max (lo.z - p.z) (p.z - hi.z)
+    · simp only [h2, decide_true, if_true, Option.getD_some]
+      by_cases f : p.z - hi.z ≤ lo.z - p.z
+      · have e := max_eq_left f
+        simp only [f, decide_true, if_true]
+        refine (fun h => Or.inr (Or.inr (Or.inr (Or.inr (Or.inl h))))) ?_
+        refine Prod.ext rfl (Prod.ext (v3_ext ?_ ?_ ?_) (v3_ext ?_ ?_ ?_)) <;> simp [V3.add, V3.set, V3.zero, e]
+      · simp only [f, decide_false, Bool.false_eq_true, if_false]
+        push Not at f
+        have e := max_eq_right f.le
+        refine (fun h => Or.inr (Or.inr (Or.inr (Or.inr (Or.inr h))))) ?_
+        refine Prod.ext rfl (Prod.ext (v3_ext ?_ ?_ ?_) (v3_ext ?_ ?_ ?_)) <;> simp [V3.add, V3.set, V3.zero, e]
+    · simp only [h2, decide_false, Bool.false_eq_true, if_false, Option.getD_some]
+      by_cases f : p.y - hi.y ≤ lo.y - p.y
+      · have e := max_eq_left f
+        simp only [f, decide_true, if_true]
+        refine (fun h => Or.inr (Or.inr (Or.inl h))) ?_
+        refine Prod.ext rfl (Prod.ext (v3_ext ?_ ?_ ?_) (v3_ext ?_ ?_ ?_)) <;> simp [V3.add, V3.set, V3.zero, e]
+      · simp only [f, decide_false, Bool.false_eq_true, if_false]
+        push Not at f
+        have e := max_eq_right f.le
+        refine (fun h => Or.inr (Or.inr (Or.inr (Or.inl h)))) ?_
+        refine Prod.ext rfl (Prod.ext (v3_ext ?_ ?_ ?_) (v3_ext ?_ ?_ ?_)) <;> simp [V3.add, V3.set, V3.zero, e]
+  · simp only [h1, decide_false, Bool.false_eq_true, if_false]
+    by_cases h2 : max (lo.x - p.x) (p.x - hi.x) < max (lo.z - p.z) (p.z - hi.z)
+    · simp only [h2, decide_true, if_true, Option.getD_some]
+      by_cases f : p.z - hi.z ≤ lo.z - p.z
+      · have e := max_eq_left f
+        simp only [f, decide_true, if_true]
+        refine (fun h => Or.inr (Or.inr (Or.inr (Or.inr (Or.inl h))))) ?_
+        refine Prod.ext rfl (Prod.ext (v3_ext ?_ ?_ ?_) (v3_ext ?_ ?_ ?_)) <;> simp [V3.add, V3.set, V3.zero, e]
+      · simp only [f, decide_false, Bool.false_eq_true, if_false]
+        push Not at f
+        have e := max_eq_right f.le
+        refine (fun h => Or.inr (Or.inr (Or.inr (Or.inr (Or.inr h))))) ?_
+        refine Prod.ext rfl (Prod.ext (v3_ext ?_ ?_ ?_) (v3_ext ?_ ?_ ?_)) <;> simp [V3.add, V3.set, V3.zero, e]
+    · simp only [h2, decide_false, Bool.false_eq_true, if_false, Option.getD_some]
+      by_cases f : p.x - hi.x ≤ lo.x - p.x
+      · have e := max_eq_left f
+        simp only [f, decide_true, if_true]
+        refine Or.inl ?_
+        refine Prod.ext rfl (Prod.ext (v3_ext ?_ ?_ ?_) (v3_ext ?_ ?_ ?_)) <;> simp [V3.add, V3.set, V3.zero, e]
+      · simp only [f, decide_false, Bool.false_eq_true, if_false]
+        push Not at f
+        have e := max_eq_right f.le
+        refine (fun h => Or.inr (Or.inl h)) ?_
+        refine Prod.ext rfl (Prod.ext (v3_ext ?_ ?_ ?_) (v3_ext ?_ ?_ ?_)) <;> simp [V3.add, V3.set, V3.zero, e]
+
+/-- one clamped coordinate: a non-zero shift puts the coordinate on an end of its interval -/
+private theorem clamp_face (lo hi x : K) (h : lo ≤ hi) :
+    max (lo - x) 0 - max (x - hi) 0 ≠ 0 →
+      x + (max (lo - x) 0 - max (x - hi) 0) = lo ∨ x + (max (lo - x) 0 - max (x - hi) 0) = hi := by
+  intro hne
+  rcases lt_or_ge x lo with h1 | h1
+  · left; rw [max_eq_left (by linarith : (0 : K) ≤ lo - x), max_eq_right (by linarith : x - hi ≤ 0)]; ring
+  · rcases lt_or_ge hi x with h2 | h2
+    · right; rw [max_eq_right (by linarith : lo - x ≤ 0), max_eq_left (by linarith : (0 : K) ≤ x - hi)]; ring
+    · exfalso; apply hne
+      rw [max_eq_right (by linarith : lo - x ≤ 0), max_eq_right (by linarith : x - hi ≤ 0)]; ring
+
+/-- **`Aabb::project_local_point_and_get_feature`** (3-D): the projection is that of `project_local_point(pt, false)`, and the
+reported feature — never `Unknown` — contains it: `Face(i)` / `Face(i+3)` is the `±` face of axis `i` the point lies on,
+`Edge(e)` the edge along axis `e % 4` with the two other coordinates on the sides coded in `e / 4`, `Vertex(id)` the corner coded
+by the three bits of `id`. -/
+theorem aabb3_feature_spec (lo hi p : V3 K) (hok : BoxOk3 lo hi) :
+    letI := fieldNum K sq
+    (aabbFeature3 lo hi p).1 = aabbProject3 lo hi p false ∧
+    FeatContains3 lo hi (aabbFeature3 lo hi p).2 (aabbFeature3 lo hi p).1.pt := by
+  letI := fieldNum K sq
+  rw [aabbFeature3_eq_post sq lo hi p _ rfl]
+  refine ⟨rfl, ?_⟩
+  simp only []
+  by_cases hm : BoxMem3 lo hi p
+  · obtain ⟨⟨mx1, mx2⟩, ⟨my1, my2⟩, ⟨mz1, mz2⟩⟩ := hm
+    obtain ⟨ox, oy, oz⟩ := hok
+    rcases aabb3_do_hollow sq lo hi p ⟨ox, oy, oz⟩ ⟨⟨mx1, mx2⟩, ⟨my1, my2⟩, ⟨mz1, mz2⟩⟩ with e | e | e | e | e | e
+    · rw [e]
+      exact featPost3_contains sq lo hi _ _ ⟨ox, oy, oz⟩
+        ⟨⟨by first | exact le_refl _ | assumption, by first | exact le_refl _ | assumption⟩, ⟨by first | exact le_refl _ | assumption, by first | exact le_refl _ | assumption⟩, ⟨by first | exact le_refl _ | assumption, by first | exact le_refl _ | assumption⟩⟩
+        (fun _ => Or.inl rfl) (fun h => absurd rfl h) (fun h => absurd rfl h) (fun _ _ _ => Or.inr (Or.inl rfl))
+    · rw [e]
+      exact featPost3_contains sq lo hi _ _ ⟨ox, oy, oz⟩
+        ⟨⟨by first | exact le_refl _ | assumption, by first | exact le_refl _ | assumption⟩, ⟨by first | exact le_refl _ | assumption, by first | exact le_refl _ | assumption⟩, ⟨by first | exact le_refl _ | assumption, by first | exact le_refl _ | assumption⟩⟩
+        (fun _ => Or.inr rfl) (fun h => absurd rfl h) (fun h => absurd rfl h) (fun _ _ _ => Or.inl rfl)
+    · rw [e]
+      exact featPost3_contains sq lo hi _ _ ⟨ox, oy, oz⟩
+        ⟨⟨by first | exact le_refl _ | assumption, by first | exact le_refl _ | assumption⟩, ⟨by first | exact le_refl _ | assumption, by first | exact le_refl _ | assumption⟩, ⟨by first | exact le_refl _ | assumption, by first | exact le_refl _ | assumption⟩⟩
+        (fun h => absurd rfl h) (fun _ => Or.inl rfl) (fun h => absurd rfl h) (fun _ _ _ => Or.inr (Or.inr (Or.inr (Or.inl rfl))))
+    · rw [e]
+      exact featPost3_contains sq lo hi _ _ ⟨ox, oy, oz⟩
+        ⟨⟨by first | exact le_refl _ | assumption, by first | exact le_refl _ | assumption⟩, ⟨by first | exact le_refl _ | assumption, by first | exact le_refl _ | assumption⟩, ⟨by first | exact le_refl _ | assumption, by first | exact le_refl _ | assumption⟩⟩
+        (fun h => absurd rfl h) (fun _ => Or.inr rfl) (fun h => absurd rfl h) (fun _ _ _ => Or.inr (Or.inr (Or.inl rfl)))
+    · rw [e]
+      exact featPost3_contains sq lo hi _ _ ⟨ox, oy, oz⟩
+        ⟨⟨by first | exact le_refl _ | assumption, by first | exact le_refl _ | assumption⟩, ⟨by first | exact le_refl _ | assumption, by first | exact le_refl _ | assumption⟩, ⟨by first | exact le_refl _ | assumption, by first | exact le_refl _ | assumption⟩⟩
+        (fun h => absurd rfl h) (fun h => absurd rfl h) (fun _ => Or.inl rfl) (fun _ _ _ => Or.inr (Or.inr (Or.inr (Or.inr (Or.inr (rfl))))))
+    · rw [e]
+      exact featPost3_contains sq lo hi _ _ ⟨ox, oy, oz⟩
+        ⟨⟨by first | exact le_refl _ | assumption, by first | exact le_refl _ | assumption⟩, ⟨by first | exact le_refl _ | assumption, by first | exact le_refl _ | assumption⟩, ⟨by first | exact le_refl _ | assumption, by first | exact le_refl _ | assumption⟩⟩
+        (fun h => absurd rfl h) (fun h => absurd rfl h) (fun _ => Or.inr rfl) (fun _ _ _ => Or.inr (Or.inr (Or.inr (Or.inr (Or.inl rfl)))))
+  · have hZ : (((lo.sub p).sup V3.zero).sub ((p.sub hi).sup V3.zero)).isZero = false := by
+      rw [← Bool.not_eq_true]; exact fun h => hm ((box_shift_zero sq lo hi p hok).mp h)
+    have hr : aabbDoProject3 lo hi p false
+        = (false, p.add (((lo.sub p).sup V3.zero).sub ((p.sub hi).sup V3.zero)), ((lo.sub p).sup V3.zero).sub ((p.sub hi).sup V3.zero)) := by
+      simp only [aabbDoProject3, hZ, Bool.not_false, if_true]
+    rw [hr]
+    obtain ⟨x1, x2, x3, _⟩ := clamp_shift lo.x hi.x p.x hok.1
+    obtain ⟨y1, y2, y3, _⟩ := clamp_shift lo.y hi.y p.y hok.2.1
+    obtain ⟨z1, z2, z3, _⟩ := clamp_shift lo.z hi.z p.z hok.2.2
+    refine featPost3_contains sq lo hi _ _ hok ?_ ?_ ?_ ?_ ?_
+    · simp only [V3.sub, V3.sup, V3.zero, V3.add, fieldNum_nmax, BoxMem3]
+      exact ⟨⟨x2, x3⟩, ⟨y2, y3⟩, ⟨z2, z3⟩⟩
+    · simp only [V3.sub, V3.sup, V3.zero, V3.add, fieldNum_nmax]
+      exact clamp_face lo.x hi.x p.x hok.1
+    · simp only [V3.sub, V3.sup, V3.zero, V3.add, fieldNum_nmax]
+      exact clamp_face lo.y hi.y p.y hok.2.1
+    · simp only [V3.sub, V3.sup, V3.zero, V3.add, fieldNum_nmax]
+      exact clamp_face lo.z hi.z p.z hok.2.2
+    · simp only [V3.sub, V3.sup, V3.zero, V3.add, fieldNum_nmax]
+      intro a b c
+      exfalso
+      exact hm ⟨x1.mp a, y1.mp b, z1.mp c⟩
+
+/-- **`Cuboid::project_local_point_and_get_feature`** (3-D) -/
+theorem cub3_feature_spec (s : Cuboid3 K) (p : V3 K) (h : CubOk3 s) :
+    letI := fieldNum K sq
+    (s.projectFeature p).1 = s.project p false ∧
+    FeatContains3 ⟨-s.he.x, -s.he.y, -s.he.z⟩ s.he (s.projectFeature p).2 (s.projectFeature p).1.pt := by
+  obtain ⟨a, b, c⟩ := h
+  exact aabb3_feature_spec sq _ _ p ⟨by show -s.he.x ≤ s.he.x; linarith, by show -s.he.y ≤ s.he.y; linarith, by show -s.he.z ≤ s.he.z; linarith⟩
+
+example : FeatContains3 (⟨-4, -4, -4⟩ : V3 ℚ) ⟨4, 4, 4⟩ (Feat.face 0) ⟨4, 0, 0⟩ ∧
+    FeatContains3 (⟨-1, -2, -3⟩ : V3 ℚ) ⟨1, 2, 3⟩ (Feat.edge (6 * 4 + 0)) ⟨1/2, -2, -3⟩ ∧
+    FeatContains3 (⟨-1, -2, -3⟩ : V3 ℚ) ⟨1, 2, 3⟩ (Feat.vertex 5) ⟨-1, 2, -3⟩ := by
+  simp only [FeatContains3, sideOf]; norm_num
+
 end C05
